@@ -136,6 +136,12 @@ func vfGenC01(r *vfRand, id int) *vfWorldCase {
 			if r.chance(1, 3) {
 				q.Origin = "https://spa.example"
 			}
+			if r.chance(1, 4) { // the headers of a CORS preflight (whatever the method is)
+				q.Headers = map[string]string{"Access-Control-Request-Method": vfPick(r, "GET", "POST", "DELETE")}
+				if r.chance(1, 2) {
+					q.Headers["Access-Control-Request-Headers"] = "authorization, content-type"
+				}
+			}
 			if r.chance(1, 4) {
 				q.ClientIDs = []int{1 + r.intn(5)}
 			}
@@ -172,7 +178,17 @@ func vfCorpusC01() []*vfWorldCase {
 	foreignLong := &vfWorldCase{Kind: "corpus", Script: vfScript{Cfg: vfWorldCfg{EndSession: true, GraceSec: 60, LongKeys: true}, Browsers: 1, Actions: []vfAction{
 		{Kind: "mint", Browser: 0, Mint: &vfMintSpec{Auth: true, Email: "a@example.com", Tok: vfPlainTok("a@example.com", 3600), KeyB: true}},
 		vfGated(0, 0, "/app", 1), vfGated(0, 0, "/app/2", 1)}}}
-	return []*vfWorldCase{sse, foreign, foreignLong, stale("no_id_token", false, nil), stale("no_id_token", true, nil),
+	preflight := &vfWorldCase{Kind: "corpus", Script: vfScript{Cfg: vfWorldCfg{EndSession: true, GraceSec: 60, Excluded: []string{"/public"}}, Browsers: 1, Actions: []vfAction{
+		vfReqAct(0, 0, "OPTIONS", "/admin/users", 1, func(q *vfReq) {
+			q.Origin = "https://spa.example"
+			q.Headers = map[string]string{"Access-Control-Request-Method": "DELETE", "Access-Control-Request-Headers": "authorization"}
+		}),
+		vfReqAct(0, 0, "OPTIONS", "/admin/users", 1, func(q *vfReq) { q.Origin = "https://spa.example" }),
+		vfReqAct(0, 0, "OPTIONS", "/public/x", 1, func(q *vfReq) {
+			q.Origin = "https://spa.example"
+			q.Headers = map[string]string{"Access-Control-Request-Method": "GET"}
+		})}}}
+	return []*vfWorldCase{sse, foreign, foreignLong, preflight, stale("no_id_token", false, nil), stale("no_id_token", true, nil),
 		stale("ok", false, vfTokForState(nil, "expired")), stale("ok", false, vfTokForState(nil, "bad_sig")), edge}
 }
 
@@ -449,6 +465,7 @@ func vfGenC07(r *vfRand, id int) *vfWorldCase {
 		}
 		s.Rotate = r.chance(2, 3)
 		s.RefreshLen = []int{0, 0, 1500, 2600, 5200, 9000}[r.intn(6)]
+		s.RefreshGz = r.chance(1, 5) // contents that look like base64 of a gzip stream
 		return s
 	}
 	acts := vfLogin(0, 0, "/app", sc())
@@ -486,6 +503,17 @@ func vfCorpusC07() []*vfWorldCase {
 		vfReqAct(0, 0, "GET", "/app", 1, func(q *vfReq) { q.Script = huge(48000) }),
 		vfReqAct(0, 0, "GET", "/app", 1, func(q *vfReq) { q.Script = tiny }),
 		vfGated(0, 0, "/app", 1))
+	// refresh tokens whose text is itself base64 of a gzip stream: small (one cookie) and large (chunked), rotated twice
+	gz := func(n int) *vfTokenScript {
+		x := vfOkScript(vfSizedTok(nil, 600, true))
+		x.RefreshLen, x.RefreshGz, x.Rotate = n, true, true
+		return x
+	}
+	acts4 := append(vfLogin(0, 0, "/app", gz(40)),
+		vfReqAct(0, 0, "GET", "/app", 1, func(q *vfReq) { q.Script = gz(3000) }),
+		vfReqAct(0, 0, "GET", "/app", 1, func(q *vfReq) { q.Script = gz(6000) }),
+		vfReqAct(0, 0, "GET", "/app", 1, func(q *vfReq) { q.Script = gz(20) }),
+		vfGated(0, 0, "/app", 1))
 	// the same sizes with no refresh due: what is read back is what gets forwarded
 	acts3 := append(vfLogin(0, 0, "/app", huge(33000)), vfGated(0, 0, "/app", 1), vfGated(0, 0, "/app/2", 1), vfLogoutAct(0, 0))
 	acts3 = append(acts3, vfLogin(0, 0, "/app", huge(70000))...)
@@ -494,6 +522,7 @@ func vfCorpusC07() []*vfWorldCase {
 		{Kind: "corpus", Script: vfScript{Cfg: vfWorldCfg{EndSession: true, GraceSec: 7200}, Browsers: 1, Actions: acts}},
 		{Kind: "corpus", Script: vfScript{Cfg: vfWorldCfg{EndSession: true, GraceSec: 7200}, Browsers: 1, Actions: acts2}},
 		{Kind: "corpus", Script: vfScript{Cfg: vfWorldCfg{EndSession: true, GraceSec: 60}, Browsers: 1, Actions: acts3}},
+		{Kind: "corpus", Script: vfScript{Cfg: vfWorldCfg{EndSession: true, GraceSec: 7200}, Browsers: 1, Actions: acts4}},
 	}
 }
 
@@ -550,6 +579,14 @@ func vfGenC18(r *vfRand, id int) *vfWorldCase {
 	n := []int{10, 900, 1000, 1020, 1024, 1025, 1030, 1500, 1900, 1950, 1990, 2100, 4000}[r.intn(13)]
 	cs.Script.Actions = append([]vfAction{vfGated(0, 0, "/long?"+strings.Repeat("a", n), 1)}, cs.Script.Actions...)
 	cs.Script.Actions = append(cs.Script.Actions, vfLogoutAct(0, 0))
+	if r.chance(1, 3) { // a session that is seconds, hours or almost a day old is written again (expired token, rejected refresh token)
+		age := int64([]int{2, 90, 3600, 40000, 86000}[r.intn(5)])
+		cs.Script.Actions = append(cs.Script.Actions,
+			vfAction{Kind: "mint", Browser: 0, Mint: &vfMintSpec{Auth: true, Email: "user@example.com", Tok: vfTokForState(r, vfPick(r, "expired", "near", "expired_in_skew")),
+				RefreshLen: []int{0, 24}[r.intn(2)], CreatedAgoSec: age}},
+			vfReqAct(0, 0, "GET", "/app", 1, func(q *vfReq) { q.AcceptJS = r.chance(1, 2); q.Script = &vfTokenScript{Kind: vfPick(r, "invalid_grant", "server_error", "ok"), Spec: vfPlainTok("user@example.com", 3600)} }),
+			vfGated(0, 0, "/app", 1))
+	}
 	return cs
 }
 
@@ -690,6 +727,14 @@ func vfGenC10(r *vfRand, id int) *vfWorldCase {
 			}
 		}))
 	}
+	if r.chance(1, 3) { // another session of the SAME user (same e-mail) whose token carries other claims, through the same instance
+		cs.Script.Browsers = 2
+		t3 := vfPlainTok("user@example.com", 3600)
+		t3.Groups = vfClaimShapes[r.intn(len(vfClaimShapes))]
+		t3.Roles = vfClaimShapes[r.intn(len(vfClaimShapes))]
+		acts = append(acts, vfLogin(1, 0, "/other", vfOkScript(t3))...)
+		acts = append(acts, vfGated(1, 0, "/other", 1), vfGated(0, 0, "/app", 1), vfGated(1, 0, "/other/2", 1))
+	}
 	cs.Script.Actions = acts
 	return cs
 }
@@ -714,7 +759,15 @@ func vfCorpusC10() []*vfWorldCase {
 	tb.Extra = map[string]interface{}{"org": map[string]interface{}{"id": "42"}}
 	acts3 := append(vfLogin(0, 0, "/a", vfOkScript(ta)), vfLogin(1, 0, "/b", vfOkScript(tb))...)
 	acts3 = append(acts3, vfGated(0, 0, "/a", 1), vfGated(1, 0, "/b", 1), vfGated(0, 0, "/a", 1), vfGated(1, 0, "/b", 1))
+	// two sessions of one user: the first token has groups and roles, the second has none
+	tg := vfPlainTok("alice@example.com", 3600)
+	tg.Groups, tg.Roles = []interface{}{"admins", "staff"}, []interface{}{"superuser"}
+	tn := vfPlainTok("alice@example.com", 3600)
+	acts4 := append(vfLogin(0, 0, "/a", vfOkScript(tg)), vfGated(0, 0, "/a", 1))
+	acts4 = append(acts4, vfLogin(1, 0, "/b", vfOkScript(tn))...)
+	acts4 = append(acts4, vfGated(1, 0, "/b", 1), vfGated(0, 0, "/a", 1), vfGated(1, 0, "/b", 1))
 	return []*vfWorldCase{
+		{Kind: "corpus", Script: vfScript{Cfg: vfWorldCfg{EndSession: true, GraceSec: 60}, Browsers: 2, Actions: acts4}},
 		{Kind: "corpus", Script: vfScript{Cfg: vfWorldCfg{EndSession: true, GraceSec: 60,
 			Templates: []vfTemplate{{"X-Org-Info", "{{.Claims.email}}|{{.Claims.org.id}}"}, {"X-Sub-Copy", "{{.Claims.sub}}"}}}, Browsers: 2, Actions: acts3}},
 		{Kind: "corpus", Script: vfScript{Cfg: vfWorldCfg{EndSession: true, GraceSec: 60,
@@ -795,6 +848,9 @@ func vfGenC15(r *vfRand, id int) *vfWorldCase {
 		if r.chance(1, 3) {
 			q.XFProto = vfPick(r, "https", "http")
 		}
+		if r.chance(1, 4) { // other proxy headers naming hosts: none of them says where the client is
+			q.Headers = map[string]string{vfPick(r, "X-Forwarded-Server", "X-Original-Host", "X-Host", "Forwarded"): vfPick(r, "edge-7.internal", "evil.example.net", "host=evil.example.net;proto=https")}
+		}
 	}
 	acts := []vfAction{vfReqAct(0, 0, "GET", uri, 1, mod), {Kind: "authorize", Browser: 0},
 		{Kind: "callback", Browser: 0, Script: vfOkScript(vfPlainTok("user@example.com", 3600))},
@@ -823,7 +879,11 @@ func vfCorpusC15() []*vfWorldCase {
 	lo := func(h, proto string) vfAction {
 		return vfReqAct(0, 0, "GET", vfLogoutPath, 3, func(q *vfReq) { q.XFHost = h; q.XFProto = proto; q.NoCookies = true })
 	}
-	acts2 := []vfAction{lo("evil.example", ""), lo("", ""), lo("tenant-b.example.net", "https"), lo("", "")}
+	srv := vfReqAct(0, 0, "GET", vfLogoutPath, 3, func(q *vfReq) {
+		q.NoCookies = true
+		q.Headers = map[string]string{"X-Forwarded-Server": "evil.example.net"}
+	})
+	acts2 := []vfAction{lo("evil.example", ""), lo("", ""), lo("tenant-b.example.net", "https"), lo("", ""), srv}
 	return []*vfWorldCase{
 		{Kind: "corpus", Script: vfScript{Cfg: vfWorldCfg{EndSession: true, GraceSec: 60}, Browsers: 1, Actions: acts}},
 		{Kind: "corpus", Script: vfScript{Cfg: vfWorldCfg{EndSession: false, GraceSec: 60, PostLogout: "/bye"}, Browsers: 1, Actions: acts2}},
@@ -919,7 +979,7 @@ func vfGenC17(r *vfRand, id int) *vfWorldCase {
 		acts = append(acts, vfGated(0, 0, "/start", 1))
 	}
 	for i := 1 + r.intn(4); i > 0; i-- {
-		a := vfAction{Kind: "tamper", Browser: 0, Tamper: vfPick(r, "junk", "junk", "truncate", "flip", "swap", "drop"),
+		a := vfAction{Kind: "tamper", Browser: 0, Tamper: vfPick(r, "junk", "junk", "truncate", "flip", "swap", "drop", "huge"),
 			Name: vfPick(r, "m", "m", "a", "r", "a0", "a1", "a2", "r0", "r1"), Name2: vfPick(r, "a", "r", "m", "a0", "r0")}
 		if a.Tamper == "drop" || a.Tamper == "swap" {
 			// the property quantifies over cookie VALUES; a jar from which a single chunk cookie has vanished
@@ -977,7 +1037,12 @@ func vfCorpusC17() []*vfWorldCase {
 		acts = append(acts, vfReqAct(0, 0, "GET", "/healed", 4, nil))
 		return &vfWorldCase{Kind: "corpus", Script: vfScript{Cfg: cfg, Browsers: 1, Actions: acts}}
 	}
-	return []*vfWorldCase{junk("m"), junk("a"), junk("r"), old, long,
+	huge := func(name string) *vfWorldCase { // a value longer than the cookie codec accepts at all
+		acts := append(vfLogin(0, 0, "/app", vfOkScript(vfPlainTok("user@example.com", 3600))),
+			vfAction{Kind: "tamper", Browser: 0, Tamper: "huge", Name: name}, vfGated(0, 0, "/app", 1), vfReqAct(0, 0, "GET", vfCallbackPath+"?code=x&state=y", 2, nil))
+		return &vfWorldCase{Kind: "corpus", Script: vfScript{Cfg: cfg, Browsers: 1, Actions: append(acts, heal...)}}
+	}
+	return []*vfWorldCase{junk("m"), junk("a"), junk("r"), huge("m"), huge("a"), huge("r"), huge("a0"), old, long,
 		chunkHeal(6000, 3000, "flip", "a0"), chunkHeal(6000, 3000, "junk", "a1"), chunkHeal(9000, 4400, "truncate", "a0"),
 		chunkHeal(3000, 6000, "junk", "a0"), chunkHeal(6000, 6000, "junk", "a2")}
 }
